@@ -1,12 +1,13 @@
 #!/bin/sh
 # run every claimed check once (quick by default) and summarise; usage: ./run_all.sh [quick|thorough] [ids...]
 TIER=${1:-quick}; shift 2>/dev/null
-IDS=${*:-$(python3 -c "import json;print(' '.join(c['property_id'] for c in json.load(open('/verif/MANIFEST.json'))['checks']))")}
-cd /verif
+cd "$(dirname "$(readlink -f "$0")")"
+IDS=${*:-$(python3 -c "import json;print(' '.join(c['property_id'] for c in json.load(open('MANIFEST.json'))['checks']))")}
+cd "$(dirname "$(readlink -f "$0")")"
 for p in $IDS; do
   s=$(date +%s)
-  /venv/bin/python -m mcx check $p --tier $TIER > /var/tmp/scratch/run_$p.log 2>&1; rc=$?
+  /venv/bin/python -m mcx check $p --tier $TIER > ${RUNLOG:-/var/tmp/scratch}/run_$p.log 2>&1; rc=$?
   e=$(date +%s)
-  echo "$p exit=$rc wall=$((e-s))s $(grep -E "^\[$p\] tier" /var/tmp/scratch/run_$p.log | sed 's/.*evaluations/evaluations/')"
-  grep -E "^VIOLATION|^KNOWN|HARNESS|HISTORY|SCHEMA" /var/tmp/scratch/run_$p.log | head -5
+  echo "$p exit=$rc wall=$((e-s))s $(grep -E "^\[$p\] tier" ${RUNLOG:-/var/tmp/scratch}/run_$p.log | sed 's/.*evaluations/evaluations/')"
+  grep -E "^VIOLATION|^KNOWN|HARNESS|HISTORY|SCHEMA" ${RUNLOG:-/var/tmp/scratch}/run_$p.log | head -5
 done
